@@ -6,13 +6,15 @@ import pandas as pd
 from .. import gen, pf, impl, scen
 from ..comp import contract as CT
 from ..comp import storage as ST_
+from ..comp import chp as CH_
+from ..comp import scaled as SC_
 
 ID = 'C08'
 THEOREMS = CT.THEOREMS_C08 + [
     ('EAO.Properties.C20', 'EAO.C20.order_outside_inert', 'an order with no step in the horizon has zero cost, no mapping row, no restriction and occurs in no nodal row'),
     ('EAO.Properties.C19', 'EAO.C19.restricted_is_filter', 'the asset grid is exactly the sub-list of grid points in [start, end)'),
-] + ST_.THEOREMS_C08_STORAGE
-PARTIAL = ['window theorems are proved for the contract / transport / multi-commodity / order-book builders and for the Storage builder (all options); for CHP/Plant, scaled and structured assets the statement rests on their builder correspondences and on the metamorphic oracle']
+] + ST_.THEOREMS_C08_STORAGE + CH_.THEOREMS_C08 + SC_.THEOREMS_C08_SCALED
+PARTIAL = ['window theorems (every mapping row inside the asset\'s own grid, zero read-out outside it, empty window inert) are proved builder by builder: contract / transport / multi-commodity / order book, Storage (all options), CHP / Plant / min-load CHP / ramp profiles, and for the wrappers ScaledAsset and StructuredAsset relative to what they wrap; LinkedAsset is not modelled; the metamorphic statement (an asset outside the horizon changes nothing ELSE) follows from these plus the composition theorems of C09 and is searched for failing inputs by the oracle']
 COMPONENTS = ['contract/transport builders (simple_contract, contract, multi, transport, ext_transport) vs the real builders, incl. windows in 9 placements and take periods inside/straddling/outside']
 RULE = ('three streams: (a) builder correspondence cases over all option combinations; (b) metamorphic: a random portfolio plus an extra asset of ANY kind whose window lies entirely outside the horizon (before/after), or extra take periods / orders outside: value and the other assets\' solution unchanged; '
         '(c) every asset\'s dispatch is zero outside its own window clipped to the horizon; proration of take periods checked against date arithmetic; non-trivial = solved scenario in which the tested element exists; distinct by case hash')
